@@ -289,3 +289,50 @@ def helper_closure(m, roots, stop=()):
             if callee is not None and callee.qual not in out and callee.qual.startswith("urllib3."):
                 todo.append(callee)
     return frozenset(out)
+
+
+_OPS = {"==": lambda a, b: a == b, "in": lambda a, b: a in b, "<": lambda a, b: a < b, "<=": lambda a, b: a <= b,
+        ">": lambda a, b: a > b, ">=": lambda a, b: a >= b, "is": lambda a, b: a is b or (a == b and type(a) is type(b))}
+
+
+def _value_of(term, assign):
+    if term in assign:
+        return True, assign[term]
+    op, args = destruct(term)
+    if op == "const":
+        return True, args
+    if isinstance(term, str) and term.startswith("frozenset("):
+        try:
+            return True, eval(term, {"__builtins__": {}, "frozenset": frozenset})
+        except Exception:
+            return False, None
+    return False, None
+
+
+def consistent(row, assign):
+    """(consistent, decided): whether the row's recorded decisions agree with the concrete values `assign` gives to some
+    terms; `decided` counts the comparisons / truth facts that could be evaluated.  Decisions on other terms are ignored."""
+    decided = 0
+    for k, v in row.st.ts.items():
+        if not (isinstance(k, tuple) and len(k) == 4 and k[0] == "cmp" and k[2] in _OPS):
+            continue
+        oka, a = _value_of(k[1], assign)
+        okb, b = _value_of(k[3], assign)
+        if not (oka and okb) or (k[1] not in assign and k[3] not in assign):
+            continue
+        try:
+            r = bool(_OPS[k[2]](a, b))
+        except Exception:
+            continue
+        decided += 1
+        if r != bool(v):
+            return False, decided
+    for sym, (truth, none) in row.st.facts.items():
+        if sym in assign:
+            val = assign[sym]
+            decided += 1
+            if truth is not None and bool(val) != truth:
+                return False, decided
+            if none is not None and (val is None) != none:
+                return False, decided
+    return True, decided
